@@ -126,6 +126,15 @@ CLAIMED.update({
               "A necessary condition; row multisets, map values and index answers are not decided.",
               "write_fragments_internal, transpose_row_addrs, rechunk_* and the remapper are trusted to compute the right values.",
               "DESIGN.md 3 C13"),
+    "C22": _c("other", "typed call-graph + value-origin analysis of the deletion / filter pre-filter",
+              "Only the clause 'deleted rows and rows failing a pre-filter are never returned', as wiring: every call of "
+              "RowIdSequence::mask / RowDatasetVersionSequence::mask outside lance-table (found through the workspace call graph) "
+              "passes positions from a sorted iterator, never DeletionVector::iter; DatasetPreFilter::new always requests the "
+              "deletion mask; create_deletion_mask answers None only with no missing fragment and no deletion file; the block list "
+              "holds every listed fragment's deletion vector and every missing fragment, the allow list the union over all fragments "
+              "of masked row ids; the final mask is the intersection of filter and deletion masks. Distances, top-k, recall and "
+              "whether every search consults the pre-filter are not decided.",
+              "The mask algebra (C21) and RowIdSequence::mask on ascending positions are trusted.", "DESIGN.md 3 C22"),
     "C43": _c("other", "attribute-coverage (COVER) analysis of every Field-from-Field construction and of the stored / Arrow conversions",
               "Only the attribute-carrying clause: every place that builds a Field from a Field (projection, exclusion, intersection, "
               "merge: discovered) takes each of name, id, parent_id, logical_type, metadata, encoding, nullable, dictionary, "
@@ -213,7 +222,6 @@ NOT_APPLICABLE = {
     "C14": "column values, join fill and field-id assignment are value-level; no shape rule is a useful necessary condition",
     "C15": "offset-to-address arithmetic over arbitrary deletion vectors is value-level",
     "C16": "needs an evaluator oracle over data; plan-shape invariants are not necessary conditions of result equality",
-    "C22": "distances and top-k over data; floating-point results",
     "C23": "tokenisation, posting lists and BM25 scores are values",
     "C25": "equality of decoded and encoded Arrow data over schemas/pages/ranges is value-level (writer/reader dispatch agreement is claimed under C26)",
     "C27": "repetition/definition level conversion is value-level structure arithmetic",
@@ -229,10 +237,7 @@ NOT_APPLICABLE = {
 # properties whose checks are designed (DESIGN.md) but not registered yet
 PENDING = {}
 # checks that exist but are held back from the manifest while a report on the unchanged tree is being triaged
-HOLD = {
-    "C38": "check built (cache-key discriminators); its reports on the unchanged tree (version-only / fragment-id-only keys) are being "
-           "reproduced before they are listed as known findings; not claimed until then",
-}
+HOLD = {}      # (C38 was held here until its five reports were reproduced against the real code; they are known findings now)
 for _k in HOLD:
     CLAIMED.pop(_k, None)
     PENDING[_k] = HOLD[_k]
